@@ -358,8 +358,7 @@ pub fn compare_solution(sol: &v1::Solution, r: &RefSolution, inst: &v1::Instance
             }
         }
     }
-    if sol.decision_variables != inst.decision_variables {
-        out.push(("decision-variables".into(), "solution.decision_variables differs from the instance's".into()));
-    }
+    // Solution.decision_variables (a copy of the instance's list) is not part of any statement: not judged
+    let _ = inst;
     out
 }
